@@ -72,6 +72,9 @@ func ceiling(s *slip.Scope, f slip.Object, args slip.List, depth int) slip.Value
 
 	switch tn := num.(type) {
 	case slip.Fixnum:
+		if q, r = fixnumQuoOverflow(tn, div.(slip.Fixnum)); q != nil {
+			break
+		}
 		q = tn / div.(slip.Fixnum)
 		r = tn - q.(slip.Fixnum)*div.(slip.Fixnum)
 		if 0 < div.(slip.Fixnum) {
